@@ -166,7 +166,11 @@ def run(ctx):
                     tgt, _ = lifecycle.build(kind, wd)
                     if target == "same":
                         oq.quantize(tgt, **kw)
-                        tgt.load_state_dict(sd2)
+                        if r.random() < 0.3:
+                            tgt.load_state_dict(sd2, assign=True)  # the assign_to_params_buffers path
+                            ctx.count("loads_with_assign")
+                        else:
+                            tgt.load_state_dict(sd2)
                     elif target == "default":
                         oq.quantize(tgt)
                         tgt.load_state_dict(sd2)
